@@ -4,9 +4,6 @@ use std::net::{IpAddr, SocketAddr};
 
 #[verifier::external_type_specification]
 #[verifier::external_body]
-pub struct ExIoError(std::io::Error);
-#[verifier::external_type_specification]
-#[verifier::external_body]
 pub struct ExSocketAddr(SocketAddr);
 #[verifier::external_type_specification]
 #[verifier::external_body]
@@ -37,12 +34,6 @@ pub trait ExRead {
     type ExternalTraitSpecificationFor: std::io::Read;
     fn read(&mut self, buf: &mut [u8]) -> (r: Result<usize, std::io::Error>)
         ensures r.is_ok() ==> r.unwrap() <= old(buf)@.len(), final(buf)@.len() == old(buf)@.len();
-}
-
-impl RwsToString for std::io::Error {
-    uninterp spec fn ts(&self) -> Seq<char>;
-    #[verifier::external_body]
-    fn rws_to_string(&self) -> String { self.to_string() }
 }
 
 pub trait RwsBorrow<'a, O> {
